@@ -188,7 +188,7 @@ func SignInPlace(el *etree.Element, s SignSpec) *etree.Element {
 		inc.CreateAttr("PrefixList", s.PrefixList)
 	}
 	dsEl(ref, "DigestMethod").CreateAttr("Algorithm", digAlg)
-	dsEl(ref, "DigestValue").SetText(wrap64(base64.StdEncoding.EncodeToString(digest), s.Wrap64))
+	dsEl(ref, "DigestValue").SetText(wrap64(base64.StdEncoding.EncodeToString(digest), s.Wrap64, s.Indent))
 
 	// insert now so that SignedInfo is canonicalised in its real namespace context
 	idx := 0
@@ -209,7 +209,7 @@ func SignInPlace(el *etree.Element, s SignSpec) *etree.Element {
 	// SignedInfo is always canonicalised without a prefix list (that is what the verifier does)
 	siBytes := CanonicalOf(si, c14n, "")
 	raw := rawSign(s.Key, sigHash[sigAlg], hashBytes(sigHash[sigAlg], siBytes))
-	dsEl(sig, "SignatureValue").SetText(wrap64(base64.StdEncoding.EncodeToString(raw), s.Wrap64))
+	dsEl(sig, "SignatureValue").SetText(wrap64(base64.StdEncoding.EncodeToString(raw), s.Wrap64, s.Indent))
 
 	certKey := s.Key
 	mode := s.KeyInfo
@@ -221,7 +221,7 @@ func SignInPlace(el *etree.Element, s SignSpec) *etree.Element {
 	case "":
 		ki := dsEl(sig, "KeyInfo")
 		xd := dsEl(ki, "X509Data")
-		dsEl(xd, "X509Certificate").SetText(wrap64(base64.StdEncoding.EncodeToString(world.Cert(certKey).Raw), s.Wrap64))
+		dsEl(xd, "X509Certificate").SetText(wrap64(base64.StdEncoding.EncodeToString(world.Cert(certKey).Raw), s.Wrap64, s.Indent))
 	case "none":
 	case "empty":
 		ki := dsEl(sig, "KeyInfo")
@@ -241,14 +241,14 @@ func SignInPlace(el *etree.Element, s SignSpec) *etree.Element {
 		tamperContent(el, sig)
 	case "sigvalue":
 		sv := sig.FindElement("./SignatureValue")
-		b, _ := base64.StdEncoding.DecodeString(sv.Text())
+		b, _ := base64.StdEncoding.DecodeString(strings.Join(strings.Fields(sv.Text()), ""))
 		b[len(b)/2] ^= 0x01
-		sv.SetText(base64.StdEncoding.EncodeToString(b))
+		sv.SetText(wrap64(base64.StdEncoding.EncodeToString(b), s.Wrap64, s.Indent))
 	case "digest":
 		dv := sig.FindElement("./SignedInfo/Reference/DigestValue")
-		b, _ := base64.StdEncoding.DecodeString(dv.Text())
+		b, _ := base64.StdEncoding.DecodeString(strings.Join(strings.Fields(dv.Text()), ""))
 		b[0] ^= 0x01
-		dv.SetText(base64.StdEncoding.EncodeToString(b))
+		dv.SetText(wrap64(base64.StdEncoding.EncodeToString(b), s.Wrap64, s.Indent))
 	default:
 		panic("unknown tamper " + s.Tamper)
 	}
@@ -256,9 +256,13 @@ func SignInPlace(el *etree.Element, s SignSpec) *etree.Element {
 }
 
 // wrap64 inserts a line feed after every 64 characters (and around the text) when on.
-func wrap64(b64 string, on bool) string {
+func wrap64(b64 string, on bool, indent ...bool) string {
 	if !on {
 		return b64
+	}
+	pad := ""
+	if len(indent) > 0 && indent[0] {
+		pad = "        "
 	}
 	var sb strings.Builder
 	sb.WriteString("\n")
@@ -267,9 +271,11 @@ func wrap64(b64 string, on bool) string {
 		if j > len(b64) {
 			j = len(b64)
 		}
+		sb.WriteString(pad)
 		sb.WriteString(b64[i:j])
 		sb.WriteString("\n")
 	}
+	sb.WriteString(pad)
 	return sb.String()
 }
 
